@@ -108,6 +108,8 @@ pub enum TruthEv {
     Push { value: i32 },
     /// An ad hoc command was sent by a handler.
     Sent { target: i32, overwrite: bool, value: i32 },
+    /// A lane of the scripted (fake) agent failed (garbage on / loss of its channel).
+    LaneFailed { item: &'static str },
     /// State read through the handler API in `on_start` (after restoration from the store).
     Restored {
         val: i32,
